@@ -270,6 +270,214 @@ def crosslimit(rng):
     return {"cfg": cfg, "ops": ops}
 
 
+def chainsettle(rng):
+    """Channels of a 2-3 node line are closed unilaterally while HTLCs are pending -- by the user or because a
+    node restarted from a manager older than its monitors -- and the chain resolves them: every broadcast
+    transaction is mined at once, block after block, until every timelock has expired.  Judged end to end
+    (C02 / C10): a payment the recipient claimed is reported sent to its (never restarted) payer and never
+    failed; every payment reaches a terminal event; nothing stays pending on the channels left open."""
+    n = rng.choice([2, 3, 3, 3])
+    pairs = [(i, i + 1) for i in range(n - 1)]
+    dirs = pairs + [(b, a) for (a, b) in pairs]
+    cfg = _cfg(rng, n)
+    ops = []
+    npay = 0
+    def send():
+        nonlocal npay
+        a = rng.randrange(n)
+        b = rng.choice([j for j in range(n) if j != a])
+        if n == 3 and rng.random() < 0.6:
+            a, b = rng.choice([(0, 2), (2, 0)])
+        ops.append({"op": "send", "from": a, "to": b, "amt": rng.choice(["big", "big", "big", "justabove", "dust"])})
+        npay += 1
+    for _ in range(rng.choice([1, 2, 3])):
+        send()
+        if rng.random() < 0.8:
+            ops.append({"op": "deliver_all"})
+    x = rng.randrange(n)
+    stale = rng.random() < 0.5
+    if stale:
+        ops.append({"op": "save", "node": x})
+    for _ in range(rng.randrange(1, 6)):
+        r = rng.random()
+        if r < 0.3:
+            send()
+        elif r < 0.6 and npay:
+            ops.append({"op": "claim" if rng.random() < 0.75 else "fail", "pay": rng.randrange(npay)})
+        elif r < 0.9:
+            ops += _deliveries(rng, dirs, rng.randrange(1, 5))
+        else:
+            ops.append({"op": "deliver_all"})
+    if stale:
+        ops.append({"op": "crash", "node": x, "mgr": "saved", "mon": rng.choice(["latest", "latest", "random"])})
+        for (a, b) in pairs:
+            if rng.random() < 0.8:
+                ops.append({"op": "reconnect", "a": a, "b": b})
+        ops += _deliveries(rng, dirs, rng.randrange(0, 6))
+    else:
+        a, b = rng.choice(dirs)
+        ops.append({"op": "force_close", "a": a, "b": b})
+        ops += _deliveries(rng, dirs, rng.randrange(0, 4))
+    # recipients make up their minds before the chain moves on
+    for k in range(npay):
+        if rng.random() < 0.7:
+            ops.append({"op": "claim" if rng.random() < 0.7 else "fail", "pay": k})
+    ops += _deliveries(rng, dirs, rng.randrange(0, 6))
+    ops += [{"op": "hold_events", "node": i, "on": False} for i in range(n)]
+    ops.append({"op": "settle_chain"})
+    ops += [{"op": "proj", "final": True}]
+    return {"cfg": cfg, "ops": ops}
+
+
+def blockedjump(rng):
+    """Monitor updates of a channel pile up behind an event the user has not handled yet (a PaymentSent whose
+    handler answered ReplayEvent blocks the update of the peer's next revocation, and what follows it); then a
+    preimage is learned for the same channel and its update jumps the queue (C09: updates reach Persist in
+    strictly increasing, gap-free id order; nothing is released before its update is durable)."""
+    x = rng.choice([0, 1])
+    y = 1 - x
+    ops = []
+    npay = 0
+    out_pays, in_pays = [], []
+    for _ in range(rng.choice([1, 1, 2])):
+        ops.append({"op": "send", "from": x, "to": y, "amt": rng.choice(["big", "justabove"])}); out_pays.append(npay); npay += 1
+    for _ in range(rng.choice([1, 2, 2])):
+        ops.append({"op": "send", "from": y, "to": x, "amt": rng.choice(["big", "justabove"])}); in_pays.append(npay); npay += 1
+    ops.append({"op": "deliver_all"})
+    ops.append({"op": "hold_events", "node": x, "on": True})
+    if rng.random() < 0.3:
+        ops.append({"op": "persist_mode", "node": x, "mode": "inprogress"})
+    ops.append({"op": "claim", "pay": out_pays[0]})
+    ops.append({"op": "deliver_all"})            # x: PaymentSent refused, the peer's revocation update is blocked
+    for _ in range(rng.choice([1, 1, 2, 3])):
+        r = rng.random()
+        if r < 0.5:
+            ops.append({"op": "send", "from": y, "to": x, "amt": rng.choice(["big", "justabove", "dust"])}); in_pays.append(npay); npay += 1
+        elif r < 0.75 and len(out_pays) > 1:
+            ops.append({"op": "claim", "pay": out_pays[1]})
+        else:
+            ops.append({"op": "fee", "node": 0, "feerate": rng.choice([500, 1000, 2000])})
+        ops += _deliveries(rng, [(y, x), (y, x), (x, y)], rng.randrange(1, 5))
+    # a preimage for the same channel arrives while updates are blocked
+    for k in rng.sample(in_pays, min(len(in_pays), rng.choice([1, 2]))):
+        ops.append({"op": "claim", "pay": k})
+        ops += _deliveries(rng, [(y, x), (x, y)], rng.randrange(0, 3))
+    if rng.random() < 0.3:
+        ops.append({"op": "complete", "node": x, "which": "all"})
+    ops.append({"op": "hold_events", "node": x, "on": False})
+    ops += _wind_down(npay, rng, [(0, 1)])
+    return {"cfg": _cfg(rng, 2), "ops": ops}
+
+
+def opendisc(rng):
+    """A channel is opened while the acceptor's (or the funder's) first monitor write is still in flight; the
+    peers are disconnected when the funding transaction reaches its depth (C09: neither channel_ready nor the
+    funding broadcast before that write is durable; afterwards exactly the held messages come out)."""
+    n = 2
+    ops = []
+    npay = 0
+    if rng.random() < 0.5:
+        ops += [{"op": "send", "from": 0, "to": 1, "amt": "big"}, {"op": "deliver_all"}]
+        npay += 1
+    a, b = rng.choice([(0, 1), (1, 0)])
+    slow = [i for i in (a, b) if rng.random() < 0.7] or [b]
+    for i in slow:
+        ops.append({"op": "persist_mode", "node": i, "mode": "inprogress"})
+    ops.append({"op": "open_extra", "a": a, "b": b})
+    # open_channel, accept_channel, funding_created, funding_signed (the handshake may also be cut short)
+    hs_ = [{"op": "deliver", "from": a, "to": b}, {"op": "deliver", "from": b, "to": a}] * 2
+    ops += hs_[:rng.choice([4, 4, 4, 4, 3, 2])]
+    ops += _deliveries(rng, [(a, b), (b, a)], rng.randrange(0, 3))
+    order = rng.random()
+    if order < 0.6:
+        ops.append({"op": "disconnect", "a": 0, "b": 1})
+        ops.append({"op": "confirm_extra"})
+        if rng.random() < 0.5:
+            ops.append({"op": "complete", "node": rng.choice(slow), "which": "all"})
+        ops.append({"op": "reconnect", "a": 0, "b": 1})
+    else:
+        ops.append({"op": "confirm_extra"})
+        ops.append({"op": "disconnect", "a": 0, "b": 1})
+        ops.append({"op": "reconnect", "a": 0, "b": 1})
+    ops += _deliveries(rng, [(a, b), (b, a)], rng.randrange(0, 8))
+    for i in slow:
+        if rng.random() < 0.8:
+            ops.append({"op": "complete", "node": i, "which": rng.choice(["oldest", "all"])})
+        ops += _deliveries(rng, [(a, b), (b, a)], rng.randrange(0, 4))
+    ops.append({"op": "confirm_extra"})
+    ops += _wind_down(npay, rng, [(0, 1)])
+    ops[len(ops) - 1:len(ops) - 1] = [{"op": "confirm_extra"}, {"op": "deliver_all"}]
+    return {"cfg": _cfg(rng, n), "ops": ops}
+
+
+def asynccross(rng):
+    """x has signed and waits for the peer's revoke_and_ack; an unrelated monitor write of x is in flight; the
+    peer's crossing commitment_signed (with news of its own) arrives (C05: never a second signature while the
+    first is unrevoked; C09: what is held is released, in order, on completion)."""
+    x = rng.choice([0, 1])
+    y = 1 - x
+    ops = []
+    npay = 0
+    in_pays = []
+    for _ in range(rng.choice([1, 2])):
+        ops.append({"op": "send", "from": y, "to": x, "amt": rng.choice(["big", "justabove"])}); in_pays.append(npay); npay += 1
+    ops.append({"op": "deliver_all"})
+    # x signs (own add or fee) and waits
+    if rng.random() < 0.8 or x != 0:
+        ops.append({"op": "send", "from": x, "to": y, "amt": rng.choice(["big", "justabove", "dust"])}); npay += 1
+    else:
+        ops.append({"op": "fee", "node": 0, "feerate": rng.choice([500, 1000, 2000])})
+    # the peer's crossing update is put on the wire before it sees x's
+    ops.append({"op": "send", "from": y, "to": x, "amt": rng.choice(["big", "justabove", "dust"])}); in_pays.append(npay); npay += 1
+    if rng.random() < 0.4:
+        ops += [{"op": "deliver", "from": x, "to": y}] * rng.choice([1, 2])
+    ops.append({"op": "persist_mode", "node": x, "mode": "inprogress"})
+    # an unrelated write of x goes in flight
+    r = rng.random()
+    if r < 0.7:
+        ops.append({"op": "claim", "pay": in_pays[0]})
+    elif r < 0.85:
+        ops.append({"op": "fail", "pay": in_pays[0]})
+    # the crossing messages arrive
+    ops += [{"op": "deliver", "from": y, "to": x}] * rng.choice([1, 2, 2, 3])
+    ops += _deliveries(rng, [(x, y), (y, x)], rng.randrange(0, 5))
+    for _ in range(rng.randrange(1, 4)):
+        ops.append({"op": "complete", "node": x, "which": rng.choice(["oldest", "oldest", "newest", "all"])})
+        ops += _deliveries(rng, [(x, y), (y, x)], rng.randrange(0, 4))
+    ops += _wind_down(npay, rng, [(0, 1)])
+    return {"cfg": _cfg(rng, 2), "ops": ops}
+
+
+def feecross(rng):
+    """The funder's update_fee + commitment_signed cross the other side's own update; the node is written and
+    re-read (clean reload) at every point of the exchange (C12: the copy reacts to everything that follows like
+    the original: a fee update already committed to must survive)."""
+    ops = []
+    npay = 0
+    if rng.random() < 0.5:
+        ops += [{"op": "send", "from": rng.choice([0, 1]), "to": 0, "amt": "big"}]
+        ops[-1]["to"] = 1 - ops[-1]["from"]
+        npay += 1
+        ops.append({"op": "deliver_all"})
+    ops.append({"op": "fee", "node": 0, "feerate": rng.choice([500, 1000, 2000, 5000])})
+    for _ in range(rng.choice([1, 1, 2])):
+        ops.append({"op": "send", "from": 1, "to": 0, "amt": rng.choice(["big", "justabove", "dust"])}); npay += 1
+    if rng.random() < 0.3:
+        ops.append({"op": "send", "from": 0, "to": 1, "amt": "big"}); npay += 1
+    k = rng.randrange(0, 9)
+    seq = _deliveries(rng, [(0, 1), (1, 0), (0, 1)], 8)
+    ops += seq[:k]
+    ops.append({"op": "reload", "node": rng.choice([0, 1, 1])})
+    ops.append({"op": "reconnect", "a": 0, "b": 1})
+    ops += _deliveries(rng, [(0, 1), (1, 0)], rng.randrange(0, 6))
+    if rng.random() < 0.3:
+        ops.append({"op": "fee", "node": 0, "feerate": rng.choice([253, 1000, 2500])})
+    if rng.random() < 0.3:
+        ops.append({"op": "reload", "node": rng.choice([0, 1])})
+    ops += _wind_down(npay, rng, [(0, 1)])
+    return {"cfg": _cfg(rng, 2), "ops": ops}
+
+
 def stalehold(rng):
     """A - B - C.  A forward (or B's own payment) waits in the holding cell of B-C (B is waiting for C's
     revoke_and_ack) when B's manager is written; B-C's monitor then moves on without freeing the holding
@@ -364,7 +572,7 @@ def evhold(rng):
     return {"cfg": _cfg(rng, n), "ops": ops}
 
 
-FAMILIES = {"crosslimit": crosslimit, "evhold": evhold, "failwin": failwin, "fanin": fanin, "inflight": inflight, "holdcell": holdcell, "stalehold": stalehold}
+FAMILIES = {"asynccross": asynccross, "blockedjump": blockedjump, "feecross": feecross, "opendisc": opendisc, "chainsettle": chainsettle, "crosslimit": crosslimit, "evhold": evhold, "failwin": failwin, "fanin": fanin, "inflight": inflight, "holdcell": holdcell, "stalehold": stalehold}
 
 
 def make(rng, family, count):
